@@ -79,7 +79,7 @@ func c07(c *Ctx) {
 		mods := map[string]*tstype.Module{}
 		srcs := map[string]string{}
 		for _, tp := range []string{"ts-client", "ts-server"} {
-			res := c.TB.Run(tp, req, plugin.RunOpt{})
+			res := lab.RunDecoy(c.TB, tp, req, plugin.RunOpt{})
 			c.R.Eval(1)
 			if !res.OK() {
 				c.R.Violate(base, "refused", tp+": "+res.Crash+res.Error, map[string]any{"proto": u.FP.File.Proto()})
@@ -279,7 +279,7 @@ func c07handlers(c *Ctx, l *lab.Lab) {
 				c.R.Harness(err.Error())
 				continue
 			}
-			res := c.TB.Run("ts-server", req, plugin.RunOpt{})
+			res := lab.RunDecoy(c.TB, "ts-server", req, plugin.RunOpt{})
 			c.R.Eval(1)
 			if !res.OK() {
 				continue
